@@ -95,7 +95,87 @@ def run_case(case):
     return v
 
 
+def run_disturbed_case(case):
+    """Histories that are not plain: (a) a user-defined scheduler whose update() hook raises once (the caller catches it and goes
+    on), (b) a script containing a NaN loss. The rule is then judged on what the calibrator itself RECORDED: within a call, no batch
+    before the last may already have a recorded minimum that rounds to zero (stopped late), a call cut short must have one (stopped
+    early), and the recorded losses are the scripted ones, NaN included. How a NaN enters 'the smallest loss' is not asserted."""
+    from black_it.calibrator import Calibrator
+    from black_it.loss_functions.minkowski import MinkowskiLoss
+    from black_it.samplers.random_uniform import RandomUniformSampler
+    from black_it.schedulers.round_robin import RoundRobinScheduler
+
+    script, bs, p, calls, fail_at = case["script"], case["bs"], case["p"], case["calls"], case.get("update_fails_at")
+
+    class Hooked(RoundRobinScheduler):
+        n_updates = 0
+
+        def update(self, *a, **k):
+            i = Hooked.n_updates
+            Hooked.n_updates += 1
+            if i == fail_at:
+                raise RuntimeError(f"user hook failed in update #{i}")
+            return super().update(*a, **k)
+
+    from black_it.loss_functions.base import BaseLoss
+
+    class FirstAbs(BaseLoss):   # a user-defined loss that lets a NaN through (scipy's Minkowski norm rejects non-finite input)
+        def compute_loss_1d(self, sim, real):  # noqa: ARG002
+            return float(np.abs(np.asarray(sim).ravel()[0]))
+
+    models.reset(script=script)
+    v = []
+    with quiet():
+        cal = Calibrator(loss_function=FirstAbs() if any(x != x for x in script) else MinkowskiLoss(p=1), real_data=np.zeros((1, 1)), model=models.model_script, parameters_bounds=[[0.0], [1.0]],
+                         parameters_precision=[0.001], ensemble_size=1, scheduler=Hooked([RandomUniformSampler(batch_size=bs)]), sim_length=1,
+                         convergence_precision=p, verbose=case["verbose"], saving_folder=None, random_state=0, n_jobs=1)
+    tag = f"script={script} bs={bs} precision={p} calls={calls} update() failing at #{fail_at}"
+    for ci, n in enumerate(calls):
+        rows0, sims0 = len(cal.losses_samp), models.N_CALLS
+        raised = False
+        try:
+            with quiet():
+                cal.calibrate(n)
+        except RuntimeError:
+            raised = True
+        ran = (models.N_CALLS - sims0) // bs                 # batches simulated in this call
+        L = np.asarray(cal.losses_samp, dtype=float)
+        exp = [abs(x) for x in (list(script) + [script[-1]] * (models.N_CALLS))[:models.N_CALLS]]
+        if len(L) > len(exp) or not np.array_equal(L, np.array(exp[:len(L)]), equal_nan=True):
+            return [("scripted-losses", f"{tag} (call #{ci}): recorded losses {L.tolist()} are not the scripted ones {exp[:len(L)]}")]
+        if np.isnan(L).any() or raised:
+            continue   # the stop decision is only judged on calls that returned and on NaN-free histories
+        for j in range(1, ran):
+            upto = L[:rows0 + j * bs]
+            if p is not None and len(upto) and converged(float(np.min(upto)), p):
+                v.append(("stopped-late", f"{tag} (call #{ci}): ran {ran} batches although the recorded minimum {float(np.min(upto))} rounded to zero after {j}; recorded {L.tolist()}, n_sampled_params={cal.n_sampled_params}"))
+                return v
+        if ran < n and not (p is not None and len(L) and converged(float(np.min(L)), p)):
+            v.append(("stopped-early", f"{tag} (call #{ci}): ran {ran} of {n} batches, the recorded minimum {float(np.min(L)) if len(L) else None} does not round to zero"))
+            return v
+    return v
+
+
+def disturbed_cell(cell):
+    res = {"evaluations": 0, "nontrivial": 0, "states": 0, "transitions": 0, "traces": 0, "stats": {}, "outcomes": set(), "violations": [], "samples": []}
+    for case in cell["cases"]:
+        vs = run_disturbed_case(case)
+        res["evaluations"] += 1
+        res["traces"] += 1
+        res["transitions"] += len(case["calls"])
+        res["nontrivial"] += 1
+        res["outcomes"].add(("disturbed", case.get("update_fails_at") is not None, any(x != x for x in case["script"])))
+        for key, what in vs:
+            if sum(1 for x in res["violations"] if x["key"] == key) < 1:
+                res["violations"].append({"key": key, "what": what, "case": dict(case, disturbed=True)})
+    res["states"] = res["evaluations"]
+    res["outcomes"] = sorted(res["outcomes"], key=repr)
+    return res
+
+
 def run_cell(cell):
+    if cell.get("kind") == "disturbed":
+        return disturbed_cell(cell)
     res = {"evaluations": 0, "nontrivial": 0, "states": 0, "transitions": 0, "traces": 0, "stats": {}, "outcomes": set(), "violations": [], "samples": []}
     alpha = cell["alphabet"]
     for tail in itertools.product(alpha, repeat=cell["length"] - len(cell["first"])):
@@ -123,6 +203,8 @@ def run_cell(cell):
 
 
 def replay_case(case):
+    if case.get("disturbed"):
+        return [{"key": k, "what": w} for k, w in run_disturbed_case(case)]
     return [{"key": k, "what": w} for k, w in run_case(case)]
 
 
@@ -135,7 +217,17 @@ def main(ctx):
         cells.append({"alphabet": alpha, "length": L, "first": list(first), "bs": 1, "precisions": precs, "folder": False, "calls": [[1, 2], [2, 2], [3, 2], [4, 1]], "seed": ctx.seed})
         cells.append({"alphabet": alpha, "length": L, "first": list(first), "bs": 2, "precisions": precs, "folder": False, "calls": [[1, 1], [2, 1]], "seed": ctx.seed})
         cells.append({"alphabet": alpha, "length": L, "first": list(first), "bs": 1, "precisions": [None, 2, 8] if ctx.quick else [None, 0, 2, 8, 12], "folder": True, "calls": [[2, 2], [3, 1]], "seed": ctx.seed})
-    ctx.bounds = {"alphabet": alpha, "script_length": L, "precisions": precs, "verbose": [False, True], "batch_sizes": [1, 2],
+    dc = []
+    for script in itertools.product((4.0, 0.3, 0.0), repeat=6):
+        for k in (0, 1, 2):
+            dc.append({"script": list(script), "bs": 2, "p": 0, "calls": [2, 3], "update_fails_at": k, "verbose": k % 2 == 0})
+    for script in itertools.product((4.0, 0.3, float("nan")), repeat=4):
+        if any(x != x for x in script):
+            for p in (0, 2, None):
+                dc.append({"script": list(script) + [5.0], "bs": 1, "p": p, "calls": [2, 3], "update_fails_at": None, "verbose": False})
+    for i in range(8):
+        cells.append({"kind": "disturbed", "cases": dc[i::8]})
+    ctx.bounds = {"disturbed_histories": f"{len(dc)}: a scheduler update() hook raising at its call 0..2 (caught, then further calls); scripts with NaN losses", "alphabet": alpha, "script_length": L, "precisions": precs, "verbose": [False, True], "batch_sizes": [1, 2],
                   "calls": "first call of 1..4 batches then a second call", "saving_folder": "subset of precisions, both verbosities"}
     ctx.rule = "every script over the alphabet x precision x verbosity x call pattern; non-trivial = the rule stops a call before its requested number of batches"
     ctx.assumptions = ["alphabet values are not within 1e-9 of a rounding half-way point, so round(x,p)==0 <=> |x| < 0.5*10^-p"]
